@@ -218,10 +218,19 @@ impl<'a> IrEmitter<'a> {
             match &e.kind {
                 IrExprKind::String(s) => Some(quote! { #s }),
                 IrExprKind::Literal(IrLiteral::StaticStr(s)) => Some(quote! { #s }),
-                IrExprKind::Var { name, .. } => self.const_string_literals.get(name).map(|lit| {
-                    let l = lit.clone();
-                    quote! { #l }
-                }),
+                // A parameter or local of another type can shadow a const's name: only a string-typed
+                // (or untyped) variable can be a reference to a `&'static str` const.
+                IrExprKind::Var { name, .. }
+                    if matches!(
+                        e.ty,
+                        IrType::String | IrType::StaticStr | IrType::FrozenStr | IrType::StrRef | IrType::Unknown
+                    ) =>
+                {
+                    self.const_string_literals.get(name).map(|lit| {
+                        let l = lit.clone();
+                        quote! { #l }
+                    })
+                }
                 _ => None,
             }
         };
